@@ -2,6 +2,7 @@ import Adsb.Print
 import Adsb.Icao
 import Adsb.Velocity
 import Adsb.TrackerF
+import Adsb.Display
 /-! Line-protocol driver: one operation per input line, one canonical line of output. -/
 open Adsb
 
@@ -60,6 +61,12 @@ def runOp (line : String) : String :=
         | some B => showRes Frame.show (decode B)
         | none => "BADOP"
       else "BADOP"
+  | ["D", h] => match parseBuf h with
+      | some B => match decode B with
+        | .ok f => "TXT " ++ ((render f).replace "\\" "\\\\").replace "\n" "\\n"
+        | .err e => s!"ERR {e.name}"
+        | .panic p => s!"PANIC {p}"
+      | none => "BADOP"
   | ["V", h] => match parseBuf h with
       | some B => opVelocity B
       | none => "BADOP"
